@@ -1243,3 +1243,138 @@ class CubeSetEndToEnd(EnumContract):
 
 
 REGISTRY.append(CubeSetEndToEnd())
+
+
+# =======================================================================================
+# C08 for strands: sort by the strand's own measure
+
+
+STRAND_SORT_PUBLIC = {
+    "base_unweighted": "unweighted_bases", "base_weighted": "weighted_bases", "count_unweighted": "unweighted_counts",
+    "count_weighted": "counts", "percent": "table_percentages", "percent_moe": "table_proportion_moes",
+    "percent_stddev": "table_proportion_stddevs", "percent_stderr": "table_proportion_stderrs",
+    "population": "population_counts", "population_moe": "population_counts_moe",
+}
+
+
+def gen_strand_sort_case(rnd):
+    case = gen_strand_case(rnd)
+    while case["dims"][0]["kind"] == "CA":
+        case = gen_strand_case(rnd)
+    d = case["dims"][0]
+    t = dict((case["transforms"].get("rows_dimension") or {}))
+    t.pop("order", None)
+    measure = rnd.choice(sorted(STRAND_SORT_PUBLIC) + ["mean", "sum", "bogus_measure"])
+    order = {"type": "univariate_measure", "measure": measure}
+    r = rnd.random()
+    if r < 0.4:
+        order["direction"] = "ascending"
+    elif r < 0.6:
+        order["direction"] = "descending"
+    if d["kind"] != "MR" and rnd.random() < 0.4:
+        ids = [c["id"] for c in d["cats"]]
+        fixed = {}
+        if rnd.random() < 0.6:
+            fixed["top"] = rnd.sample(ids, 1)
+        if rnd.random() < 0.6:
+            fixed["bottom"] = rnd.sample(ids, 1)
+        if fixed:
+            order["fixed"] = fixed
+    t["order"] = order
+    case["transforms"] = {"rows_dimension": t}
+    return case
+
+
+class StrandSortByValue(EnumContract):
+    name = "e2e:_Strand sort by its own measure (public API)"
+    props = ("C08",)
+    bound = ("1-D CAT / CAT_DATE / MR responses as in the strand oracle, order type univariate_measure over every supported "
+             "keyword plus keywords whose measure the response lacks (mean, sum) and an unknown one, direction default / "
+             "ascending / descending, optional fixed top / bottom, subtotals / differences, hide, prune; seeded sample")
+    clauses = ("strand-body-monotone", "strand-nan-last-in-payload-order", "strand-population-nan-last", "strand-subtotal-group",
+               "strand-fixed-brackets", "strand-fallback-payload-order", "strand-no-duplicates", "strand-sort-exception")
+
+    def cases(self, cfg, seed, thorough):
+        rnd = random.Random(9500 + seed)
+        for _ in range(4000 if thorough else 500):
+            yield gen_strand_sort_case(rnd)
+
+    def check_case(self, case, cfg):
+        import numpy as np
+        import warnings
+        from cr.cube.cube import Cube
+
+        warnings.simplefilter("ignore")
+        dims, rs, weighted, tr = case["dims"], case["rs"], case["weighted"], case["transforms"]
+        d = dims[0]
+        bad = set()
+        if not valid_elems(d):
+            return []
+        try:
+            t = tr["rows_dimension"]
+            spec_ = t["order"]
+            p = Cube(tabulate(dims, rs, weighted), transforms=copy.deepcopy(tr), population=1000).partitions[0]
+            order = [int(o) for o in p.row_order()]
+            if len(set(order)) != len(order):
+                bad.add("strand-no-duplicates")
+            plain_t = {k: v for k, v in t.items() if k != "order"}
+            p0 = Cube(tabulate(dims, rs, weighted), transforms={"rows_dimension": copy.deepcopy(plain_t)} if plain_t else None,
+                      population=1000).partitions[0]
+            payload = [int(o) for o in p0.row_order()]
+            if spec_["measure"] not in STRAND_SORT_PUBLIC:
+                # measure not in the response / unknown keyword: anchored payload order
+                if order != payload:
+                    bad.add("strand-fallback-payload-order")
+                return sorted(bad)
+            if sorted(order) != sorted(payload):
+                bad.add("strand-no-duplicates")
+                return sorted(bad)
+            vals = np.asarray(getattr(p, STRAND_SORT_PUBLIC[spec_["measure"]]), dtype=float)
+            desc = spec_.get("direction", "descending") != "ascending"
+            V = valid_elems(d)
+            ids = [d["cats"][i]["id"] for i in V] if d["kind"] != "MR" else list(range(1, len(V) + 1))
+            fixed = spec_.get("fixed") or {}
+            top = [ids.index(i) for i in fixed.get("top", []) if i in ids]
+            bottom = [ids.index(i) for i in fixed.get("bottom", []) if i in ids and ids.index(i) not in top]
+            pos = {o: k for k, o in enumerate(order)}
+            subs = [o for o in order if o < 0]
+            base = [o for o in order if o >= 0]
+            vis_top = [o for o in top if o in pos]
+            vis_bottom = [o for o in bottom if o in pos]
+            body = [o for o in base if o not in vis_top and o not in vis_bottom]
+            # group structure: subtotals first (descending) or last (ascending); fixed brackets
+            exp_layout = (subs if desc else []) + vis_top + body + vis_bottom + ([] if desc else subs)
+            if order != exp_layout:
+                if [o for o in order if o >= 0] != vis_top + body + vis_bottom:
+                    bad.add("strand-fixed-brackets")
+                else:
+                    bad.add("strand-subtotal-group")
+
+            # population keywords sort by a surrogate (the proportion) whose NaNs differ from the
+            # public value's (differences, NaN filtered fraction): separately named clause (F9)
+            nan_clause = ("strand-population-nan-last" if spec_["measure"].startswith("population")
+                          else "strand-nan-last-in-payload-order")
+
+            def monotone(seq, clause):
+                v = [vals[pos[o]] for o in seq]
+                fin = [x for x in v if x == x]
+                k = len(fin)
+                if any(x != x for x in v[:k]):
+                    bad.add(nan_clause)
+                    return
+                for a, b in zip(fin, fin[1:]):
+                    if (a < b - 1e-9) if desc else (a > b + 1e-9):
+                        bad.add(clause)
+                nan_part = [o for o in seq[k:]]
+                # payload order: element index for base rows, definition order for subtotals
+                if nan_part != sorted(nan_part):
+                    bad.add(nan_clause)
+
+            monotone(body, "strand-body-monotone")
+            monotone(subs, "strand-subtotal-group")
+        except Exception as e:
+            bad.add("strand-sort-exception:%s" % type(e).__name__)
+        return sorted(bad)
+
+
+REGISTRY.append(StrandSortByValue())
